@@ -5,6 +5,8 @@ import (
 	"fmt"
 	"strings"
 
+	"k8s.io/apimachinery/pkg/api/errors"
+	"k8s.io/apimachinery/pkg/api/meta"
 	"k8s.io/apimachinery/pkg/apis/meta/v1/unstructured"
 	"k8s.io/apimachinery/pkg/runtime/schema"
 	"k8s.io/apimachinery/pkg/types"
@@ -17,7 +19,10 @@ const (
 )
 
 func DisableHPA(cli client.Client, object client.Object) error {
-	hpa := findHPAForWorkload(cli, object)
+	hpa, err := findHPAForWorkloadOrError(cli, object)
+	if err != nil {
+		return err
+	}
 	if hpa == nil {
 		return nil
 	}
@@ -37,7 +42,10 @@ func DisableHPA(cli client.Client, object client.Object) error {
 }
 
 func RestoreHPA(cli client.Client, object client.Object) error {
-	hpa := findHPAForWorkload(cli, object)
+	hpa, err := findHPAForWorkloadOrError(cli, object)
+	if err != nil {
+		return err
+	}
 	if hpa == nil {
 		return nil
 	}
@@ -57,20 +65,33 @@ func RestoreHPA(cli client.Client, object client.Object) error {
 }
 
 func findHPAForWorkload(cli client.Client, object client.Object) *unstructured.Unstructured {
-	hpa := findHPA(cli, object, "v2")
+	hpa, _ := findHPAForWorkloadOrError(cli, object)
+	return hpa
+}
+
+// findHPAForWorkloadOrError is findHPAForWorkload for callers that must not take a failed lookup for "there is no HPA":
+// only an autoscaling version the cluster does not serve counts as absent, any other failure is returned.
+func findHPAForWorkloadOrError(cli client.Client, object client.Object) (*unstructured.Unstructured, error) {
+	hpa, err := findHPA(cli, object, "v2")
+	if err != nil {
+		return nil, err
+	}
 	if hpa != nil {
-		return hpa
+		return hpa, nil
 	}
 	return findHPA(cli, object, "v1")
 }
 
-func findHPA(cli client.Client, object client.Object, version string) *unstructured.Unstructured {
+func findHPA(cli client.Client, object client.Object, version string) (*unstructured.Unstructured, error) {
 	unstructuredList := &unstructured.UnstructuredList{}
 	hpaGvk := schema.GroupVersionKind{Group: "autoscaling", Kind: "HorizontalPodAutoscaler", Version: version}
 	unstructuredList.SetGroupVersionKind(hpaGvk)
 	if err := cli.List(context.TODO(), unstructuredList, &client.ListOptions{Namespace: object.GetNamespace()}); err != nil {
 		klog.Warningf("Get HPA for workload %v failed, because %s", klog.KObj(object), err.Error())
-		return nil
+		if meta.IsNoMatchError(err) || errors.IsNotFound(err) {
+			return nil, nil
+		}
+		return nil, fmt.Errorf("failed to list HPA (%s) for workload %v, because %s", version, klog.KObj(object), err.Error())
 	}
 	klog.Infof("Get %d HPA with %s in namespace %s in total", len(unstructuredList.Items), version, object.GetNamespace())
 	for _, item := range unstructuredList.Items {
@@ -83,11 +104,11 @@ func findHPA(cli client.Client, object client.Object, version string) *unstructu
 		if version == object.GetObjectKind().GroupVersionKind().GroupVersion().String() &&
 			kind == object.GetObjectKind().GroupVersionKind().Kind &&
 			removeSuffix(name) == object.GetName() {
-			return &item
+			return &item, nil
 		}
 	}
 	klog.Infof("No HPA found for workload %v", klog.KObj(object))
-	return nil
+	return nil, nil
 }
 
 func addSuffix(HPARefName string) string {
